@@ -70,7 +70,8 @@ class Module:
         self.is_pkg = relpath.endswith('__init__.py')
         self.source = source
         self.sha256 = hashlib.sha256(source.encode()).hexdigest()
-        self.tree = ast.parse(source, filename=relpath)
+        from .normalize import normalize
+        self.tree = normalize(ast.parse(source, filename=relpath))
         self.imports: dict[str, tuple[str, Optional[str]]] = {}
         self.functions: dict[str, 'Func'] = {}
         self.classes: dict[str, 'ClassInfo'] = {}
